@@ -344,13 +344,21 @@ pub fn eval(expr: Node) -> Result<Decimal, Box<dyn error::Error>> {
             }
         }
         Avg(args) => {
-            let mut result = Decimal::ZERO;
+            let len = Decimal::new(args.len() as i64, 0);
+            let mut result = Some(Decimal::ZERO);
+            let mut scaled = Some(Decimal::ZERO);
             for arg in <Vec<Node> as Clone>::clone(&args).into_iter() {
                 #[cfg(feature = "verif_hooks")]
                 crate::verif_hooks::tick(crate::verif_hooks::Point::EvalLoop);
-                result = result.checked_add(eval(arg)?).ok_or("Decimal overflow")?;
+                let value = eval(arg)?;
+                result = result.and_then(|sum| sum.checked_add(value));
+                scaled = scaled.and_then(|sum| sum.checked_add(value / len));
             }
-            Ok(result / Decimal::new(args.len() as i64, 0))
+            // when the sum overflows although the mean does not (avg(MAX, MAX)): the sum of the scaled terms
+            match result {
+                Some(sum) => Ok(sum / len),
+                None => Ok(scaled.ok_or("Decimal overflow")?),
+            }
         }
         Med(args) => {
             let mut results = vec![];
@@ -362,10 +370,13 @@ pub fn eval(expr: Node) -> Result<Decimal, Box<dyn error::Error>> {
             results.sort_by(|a, b| a.partial_cmp(b).unwrap());
             let len = results.len();
             if len % 2 == 0 {
-                Ok(results[len >> 1]
-                    .checked_add(results[(len >> 1) - 1])
-                    .ok_or("Decimal overflow")?
-                    / Decimal::new(2, 0))
+                let (a, b) = (results[len >> 1], results[(len >> 1) - 1]);
+                let two = Decimal::new(2, 0);
+                match a.checked_add(b) {
+                    Some(sum) => Ok(sum / two),
+                    // the sum overflows although the mean does not
+                    None => Ok((a / two).checked_add(b / two).ok_or("Decimal overflow")?),
+                }
             } else {
                 Ok(results[len >> 1])
             }
